@@ -1,0 +1,208 @@
+//go:build verif
+
+package mp4
+
+// Property C01 (agent c01a): body-trace functions of box types Btrt .. Pasp; see verif_contracts_c01.go for the method.
+
+// ---- btrt
+//@ spec btrtBody(b *BtrtBox, t uint64) uint64 = trApp(trApp(trApp(t, chU(32, b.BufferSizeDB)), chU(32, b.MaxBitrate)), chU(32, b.AvgBitrate))
+//@ func DecodeBtrtSR
+//@   ensures[C01] result1 == nil && sr.(*bits.FixedSliceReader).err == nil ==> ghost(sr).tr == btrtBody(result0.(*BtrtBox), old(ghost(sr).tr))
+//@ func (*BtrtBox).EncodeSW
+//@   ensures[C01] result == nil && sw.(*bits.FixedSliceWriter).accError == nil ==> ghost(sw).tr == btrtBody(b, trHdr(old(ghost(sw).tr), uint32(b.Size()), b.Type()))
+
+// ---- clap
+//@ spec clapBody(b *ClapBox, t uint64) uint64 = trApp(trApp(trApp(trApp(trApp(trApp(trApp(trApp(t, chU(32, b.CleanApertureWidthN)), chU(32, b.CleanApertureWidthD)), chU(32, b.CleanApertureHeightN)), chU(32, b.CleanApertureHeightD)), chU(32, b.HorizOffN)), chU(32, b.HorizOffD)), chU(32, b.VertOffN)), chU(32, b.VertOffD))
+//@ func DecodeClapSR
+//@   ensures[C01] result1 == nil && sr.(*bits.FixedSliceReader).err == nil ==> ghost(sr).tr == clapBody(result0.(*ClapBox), old(ghost(sr).tr))
+//@ func (*ClapBox).EncodeSW
+//@   ensures[C01] result == nil && sw.(*bits.FixedSliceWriter).accError == nil ==> ghost(sw).tr == clapBody(b, trHdr(old(ghost(sw).tr), uint32(b.Size()), b.Type()))
+
+// ---- co64
+//@ spec rec co64Tr(off []uint64, n int, t uint64) uint64 = ite(n <= 0, t, trApp(co64Tr(off, n-1, t), chU(64, off[n-1])))
+//@ spec co64Pre(b *Co64Box, t uint64) uint64 = trApp(trApp(t, chU(32, vf(b.Version, b.Flags))), chU(32, uint32(len(b.ChunkOffset))))
+//@ spec co64Body(b *Co64Box, t uint64) uint64 = co64Tr(b.ChunkOffset, len(b.ChunkOffset), co64Pre(b, t))
+//@ func DecodeCo64SR
+//@   ensures[C01] result1 == nil && sr.(*bits.FixedSliceReader).err == nil ==> ghost(sr).tr == co64Body(result0.(*Co64Box), old(ghost(sr).tr))
+//@   loop 1 invariant len(b.ChunkOffset) == int(nrEntries)
+//@   loop 1 invariant sr.(*bits.FixedSliceReader).err == nil ==> ghost(sr).tr == co64Tr(b.ChunkOffset, int(i), co64Pre(b, old(ghost(sr).tr)))
+//@ func (*Co64Box).EncodeSW
+//@   ensures[C01] result == nil && sw.(*bits.FixedSliceWriter).accError == nil ==> ghost(sw).tr == co64Body(b, trHdr(old(ghost(sw).tr), uint32(b.Size()), b.Type()))
+//@   loop 1 invariant sw.(*bits.FixedSliceWriter).accError == nil ==> ghost(sw).tr == co64Tr(b.ChunkOffset, idx(1), co64Pre(b, trHdr(old(ghost(sw).tr), uint32(b.Size()), b.Type())))
+
+// ---- coll (CoLL)
+//@ spec collBody(b *CoLLBox, t uint64) uint64 = trApp(trApp(trApp(trApp(t, chU(8, b.Version)), chU(24, b.Flags & 0xffffff)), chU(16, b.MaxCLL)), chU(16, b.MaxFALL))
+//@ func DecodeCoLLSR
+//@   ensures[C01] result1 == nil && sr.(*bits.FixedSliceReader).err == nil ==> ghost(sr).tr == collBody(result0.(*CoLLBox), old(ghost(sr).tr))
+//@ func (*CoLLBox).EncodeSW
+//@   ensures[C01] result == nil && sw.(*bits.FixedSliceWriter).accError == nil ==> ghost(sw).tr == collBody(b, trHdr(old(ghost(sw).tr), uint32(b.Size()), b.Type()))
+
+// ---- colr; x = the byte after the matrix coefficients of an nclx box: its low 7 bits are reserved (don't care)
+//@ spec colr3(c *ColrBox, t uint64) uint64 = trApp(trApp(trApp(trApp(t, chBytes(c.ColorType)), chU(16, c.ColorPrimaries)), chU(16, c.TransferCharacteristics)), chU(16, c.MatrixCoefficients))
+//@ spec colrBody(c *ColrBox, t uint64, x byte) uint64 = ite(c.ColorType == "nclx", trApp(colr3(c, t), chU(8, ite(c.FullRangeFlag, byte(0x80), byte(0)) | (x & 0x7f))), ite(c.ColorType == "rICC" || c.ColorType == "prof", trApp(trApp(t, chBytes(c.ColorType)), chBytes(c.ICCProfile)), ite(c.ColorType == "nclc", colr3(c, t), trApp(trApp(t, chBytes(c.ColorType)), chBytes(c.UnknownPayload)))))
+//@ func DecodeColrSR
+//@   ensures[C01] result1 == nil && sr.(*bits.FixedSliceReader).err == nil ==> exists x byte :: ghost(sr).tr == colrBody(result0.(*ColrBox), old(ghost(sr).tr), x)
+//@ func (*ColrBox).EncodeSW
+//@   ensures[C01] result == nil && sw.(*bits.FixedSliceWriter).accError == nil ==> ghost(sw).tr == colrBody(c, trHdr(old(ghost(sw).tr), uint32(c.Size()), c.Type()), byte(0))
+
+// ---- cslg
+//@ spec cslg32(b *CslgBox, t uint64) uint64 = trApp(trApp(trApp(trApp(trApp(t, chU(32, uint32(b.CompositionToDTSShift))), chU(32, uint32(b.LeastDecodeToDisplayDelta))), chU(32, uint32(b.GreatestDecodeToDisplayDelta))), chU(32, uint32(b.CompositionStartTime))), chU(32, uint32(b.CompositionEndTime)))
+//@ spec cslg64(b *CslgBox, t uint64) uint64 = trApp(trApp(trApp(trApp(trApp(t, chU(64, uint64(b.CompositionToDTSShift))), chU(64, uint64(b.LeastDecodeToDisplayDelta))), chU(64, uint64(b.GreatestDecodeToDisplayDelta))), chU(64, uint64(b.CompositionStartTime))), chU(64, uint64(b.CompositionEndTime)))
+//@ spec cslgBody(b *CslgBox, t uint64) uint64 = ite(b.Version == 0, cslg32(b, trApp(t, chU(32, vf(b.Version, b.Flags)))), cslg64(b, trApp(t, chU(32, vf(b.Version, b.Flags)))))
+//@ func DecodeCslgSR
+//@   ensures[C01] result1 == nil && sr.(*bits.FixedSliceReader).err == nil ==> ghost(sr).tr == cslgBody(result0.(*CslgBox), old(ghost(sr).tr))
+//@ func (*CslgBox).EncodeSW
+//@   ensures[C01] result == nil && sw.(*bits.FixedSliceWriter).accError == nil ==> ghost(sw).tr == cslgBody(b, trHdr(old(ghost(sw).tr), uint32(b.Size()), b.Type()))
+
+// ---- ctts (sample counts are stored as running sums EndSampleNr; the count of entry k is EndSampleNr[k+1]-EndSampleNr[k])
+// cttsTr is called with end1 = end[1:], so that every slice is read at n-1 only (the shape the engine's frame lemma needs)
+//@ spec rec cttsTr(end []uint32, end1 []uint32, off []int32, n int, t uint64) uint64 = ite(n <= 0, t, trApp(trApp(cttsTr(end, end1, off, n-1, t), chU(32, end1[n-1] - end[n-1])), chU(32, uint32(off[n-1]))))
+//@ spec cttsPre(b *CttsBox, t uint64) uint64 = trApp(trApp(t, chU(32, vf(b.Version, b.Flags))), chU(32, uint32(len(b.SampleOffset))))
+//@ spec cttsBody(b *CttsBox, t uint64) uint64 = cttsTr(b.EndSampleNr, b.EndSampleNr[1:], b.SampleOffset, len(b.SampleOffset), cttsPre(b, t))
+//@ func (*CttsBox).NrSampleCount
+//@   ensures result == len(b.SampleOffset)
+//@   assigns nothing
+//@ func DecodeCttsSR
+//@   ensures[C01] result1 == nil && sr.(*bits.FixedSliceReader).err == nil ==> ghost(sr).tr == cttsBody(result0.(*CttsBox), old(ghost(sr).tr))
+//@   loop 1 invariant len(b.SampleOffset) == int(entryCount) && len(b.EndSampleNr) == int(entryCount) + 1 && 0 <= i && i <= int(entryCount)
+//@   loop 1 invariant endSampleNr == b.EndSampleNr[i]
+//@   loop 1 invariant sr.(*bits.FixedSliceReader).err == nil ==> ghost(sr).tr == cttsTr(b.EndSampleNr, b.EndSampleNr[1:], b.SampleOffset, i, cttsPre(b, old(ghost(sr).tr)))
+//@ func (*CttsBox).EncodeSW
+//@   ensures[C01] result == nil && sw.(*bits.FixedSliceWriter).accError == nil ==> ghost(sw).tr == cttsBody(b, trHdr(old(ghost(sw).tr), uint32(b.Size()), b.Type()))
+//@   loop 1 invariant 0 <= i && i <= len(b.SampleOffset)
+//@   loop 1 invariant sw.(*bits.FixedSliceWriter).accError == nil ==> ghost(sw).tr == cttsTr(b.EndSampleNr, b.EndSampleNr[1:], b.SampleOffset, i, cttsPre(b, trHdr(old(ghost(sw).tr), uint32(b.Size()), b.Type())))
+
+// ---- elng
+//@ spec elngBody(b *ElngBox, t uint64) uint64 = trApp(trApp(ite(b.missingFullBox, t, trApp(t, chU(32, uint32(b.Version)<<24 | b.Flags))), chBytes(b.Language)), chU(8, uint64(0)))
+//@ func DecodeElngSR
+//@   ensures[C01] result1 == nil && sr.(*bits.FixedSliceReader).err == nil ==> ghost(sr).tr == elngBody(result0.(*ElngBox), old(ghost(sr).tr))
+//@ func (*ElngBox).EncodeSW
+//@   ensures[C01] result == nil && sw.(*bits.FixedSliceWriter).accError == nil ==> ghost(sw).tr == elngBody(b, trHdr(old(ghost(sw).tr), uint32(b.Size()), b.Type()))
+
+// ---- elst
+//@ spec rec elstTr(es []ElstEntry, n int, v1 bool, t uint64) uint64 = ite(n <= 0, t, trApp(trApp(trApp(trApp(elstTr(es, n-1, v1, t), ite(v1, chU(64, es[n-1].SegmentDuration), chU(32, uint32(es[n-1].SegmentDuration)))), ite(v1, chU(64, uint64(es[n-1].MediaTime)), chU(32, uint32(es[n-1].MediaTime)))), chU(16, uint16(es[n-1].MediaRateInteger))), chU(16, uint16(es[n-1].MediaRateFraction))))
+//@ spec elstPre(b *ElstBox, t uint64) uint64 = trApp(trApp(t, chU(32, vf(b.Version, b.Flags))), chU(32, uint32(len(b.Entries))))
+//@ spec elstBody(b *ElstBox, t uint64) uint64 = elstTr(b.Entries, len(b.Entries), b.Version == 1, elstPre(b, t))
+//@ func DecodeElstSR
+//@   ensures[C01] result1 == nil && sr.(*bits.FixedSliceReader).err == nil ==> ghost(sr).tr == elstBody(result0.(*ElstBox), old(ghost(sr).tr))
+//@   loop 1 invariant len(b.Entries) == int(entryCount) && 0 <= i && i <= int(entryCount) && b.Version == version
+//@   loop 1 invariant sr.(*bits.FixedSliceReader).err == nil ==> ghost(sr).tr == elstTr(b.Entries, i, true, elstPre(b, old(ghost(sr).tr)))
+//@   loop 2 invariant len(b.Entries) == int(entryCount) && 0 <= i && i <= int(entryCount) && b.Version == version
+//@   loop 2 invariant sr.(*bits.FixedSliceReader).err == nil ==> ghost(sr).tr == elstTr(b.Entries, i, false, elstPre(b, old(ghost(sr).tr)))
+//@ func (*ElstBox).EncodeSW
+//@   ensures[C01] result == nil && sw.(*bits.FixedSliceWriter).accError == nil ==> ghost(sw).tr == elstBody(b, trHdr(old(ghost(sw).tr), uint32(b.Size()), b.Type()))
+//@   loop 1 invariant sw.(*bits.FixedSliceWriter).accError == nil ==> ghost(sw).tr == elstTr(b.Entries, idx(1), true, elstPre(b, trHdr(old(ghost(sw).tr), uint32(b.Size()), b.Type())))
+//@   loop 2 invariant sw.(*bits.FixedSliceWriter).accError == nil ==> ghost(sw).tr == elstTr(b.Entries, idx(2), false, elstPre(b, trHdr(old(ghost(sw).tr), uint32(b.Size()), b.Type())))
+
+// ---- emsg
+//@ spec emsgStr(b *EmsgBox, t uint64) uint64 = trApp(trApp(trApp(trApp(t, chBytes(b.SchemeIDURI)), chU(8, uint64(0))), chBytes(b.Value)), chU(8, uint64(0)))
+//@ spec emsgV1(b *EmsgBox, t uint64) uint64 = emsgStr(b, trApp(trApp(trApp(trApp(t, chU(32, b.TimeScale)), chU(64, b.PresentationTime)), chU(32, b.EventDuration)), chU(32, b.ID)))
+//@ spec emsgV0(b *EmsgBox, t uint64) uint64 = trApp(trApp(trApp(trApp(emsgStr(b, t), chU(32, b.TimeScale)), chU(32, b.PresentationTimeDelta)), chU(32, b.EventDuration)), chU(32, b.ID))
+//@ spec emsgFix(b *EmsgBox, t uint64) uint64 = ite(b.Version == 1, emsgV1(b, trApp(t, chU(32, vf(b.Version, b.Flags)))), emsgV0(b, trApp(t, chU(32, vf(b.Version, b.Flags)))))
+//@ spec emsgBody(b *EmsgBox, t uint64) uint64 = ite(len(b.MessageData) > 0, trApp(emsgFix(b, t), chBytes(b.MessageData)), emsgFix(b, t))
+//@ func DecodeEmsgSR
+//@   ensures[C01] result1 == nil && sr.(*bits.FixedSliceReader).err == nil ==> ghost(sr).tr == emsgBody(result0.(*EmsgBox), old(ghost(sr).tr))
+//@ func (*EmsgBox).EncodeSW
+//@   ensures[C01] result == nil && sw.(*bits.FixedSliceWriter).accError == nil ==> ghost(sw).tr == emsgBody(b, trHdr(old(ghost(sw).tr), uint32(b.Size()), b.Type()))
+
+// ---- free / skip (the box type written is b.Name, which the decoder takes from the header)
+//@ spec freeBody(b *FreeBox, t uint64) uint64 = trApp(t, chBytes(b.notDecoded))
+//@ func DecodeFreeSR
+//@   ensures[C01] result1 == nil && sr.(*bits.FixedSliceReader).err == nil ==> ghost(sr).tr == freeBody(result0.(*FreeBox), old(ghost(sr).tr))
+//@   ensures[C01] result1 == nil ==> result0.(*FreeBox).Name == hdr.Name
+//@ func (*FreeBox).EncodeSW
+//@   ensures[C01] result == nil && sw.(*bits.FixedSliceWriter).accError == nil ==> ghost(sw).tr == freeBody(b, trHdr(old(ghost(sw).tr), uint32(b.Size()), b.Name))
+
+// ---- frma
+//@ spec frmaBody(b *FrmaBox, t uint64) uint64 = trApp(t, chBytes(b.DataFormat))
+//@ func DecodeFrmaSR
+//@   ensures[C01] result1 == nil && sr.(*bits.FixedSliceReader).err == nil ==> ghost(sr).tr == frmaBody(result0.(*FrmaBox), old(ghost(sr).tr))
+//@ func (*FrmaBox).EncodeSW
+//@   ensures[C01] result == nil && sw.(*bits.FixedSliceWriter).accError == nil ==> ghost(sw).tr == frmaBody(b, trHdr(old(ghost(sw).tr), uint32(b.Size()), b.Type()))
+
+// ---- ftyp (kept as raw payload bytes)
+//@ spec ftypBody(b *FtypBox, t uint64) uint64 = trApp(t, chBytes(b.data))
+//@ func DecodeFtypSR
+//@   ensures[C01] result1 == nil && sr.(*bits.FixedSliceReader).err == nil ==> ghost(sr).tr == ftypBody(result0.(*FtypBox), old(ghost(sr).tr))
+//@ func (*FtypBox).EncodeSW
+//@   ensures[C01] result == nil && sw.(*bits.FixedSliceWriter).accError == nil ==> ghost(sw).tr == ftypBody(b, trHdr(old(ghost(sw).tr), uint32(b.Size()), b.Type()))
+
+// ---- kind
+//@ spec kindBody(b *KindBox, t uint64) uint64 = trApp(trApp(trApp(trApp(trApp(t, chU(32, vf(b.Version, b.Flags))), chBytes(b.SchemeURI)), chU(8, uint64(0))), chBytes(b.Value)), chU(8, uint64(0)))
+//@ func DecodeKindSR
+//@   ensures[C01] result1 == nil && sr.(*bits.FixedSliceReader).err == nil ==> ghost(sr).tr == kindBody(result0.(*KindBox), old(ghost(sr).tr))
+//@ func (*KindBox).EncodeSW
+//@   ensures[C01] result == nil && sw.(*bits.FixedSliceWriter).accError == nil ==> ghost(sw).tr == kindBody(b, trHdr(old(ghost(sw).tr), uint32(b.Size()), b.Type()))
+
+// ---- hdlr. The fixed part is one function for both sides. The name is read as ONE chunk of raw bytes (name plus optional
+// terminator) and written as chBytes(Name) followed by the terminator chunk; chunks are compared by location, so the two
+// sides of the tail are related through the byte contents (decoder clauses 2 and 3) instead of chunk identity.
+//@ spec hdlrFix(b *HdlrBox, t uint64) uint64 = trApp(trApp(trApp(trApp(t, chU(32, (uint32(b.Version) << 24) | b.Flags)), chU(32, b.PreDefined)), chBytes(b.HandlerType)), chU(0, uint64(12)))
+//@ spec hdlrBody(b *HdlrBox, t uint64) uint64 = ite(b.LacksNullTermination, trApp(hdlrFix(b, t), chBytes(b.Name)), trApp(trApp(hdlrFix(b, t), chBytes(b.Name)), chU(8, uint64(0))))
+//@ func DecodeHdlrSR
+//@   ensures[C01] result1 == nil && sr.(*bits.FixedSliceReader).err == nil ==> ghost(sr).tr == ite(hdr.payloadLen() - 24 > 0, trApp(hdlrFix(result0.(*HdlrBox), old(ghost(sr).tr)), chBytes(sr.(*bits.FixedSliceReader).slice[sr.(*bits.FixedSliceReader).pos - (hdr.payloadLen() - 24) : sr.(*bits.FixedSliceReader).pos])), hdlrFix(result0.(*HdlrBox), old(ghost(sr).tr)))
+//@   ensures[C01] result1 == nil && sr.(*bits.FixedSliceReader).err == nil && hdr.payloadLen() - 24 > 0 ==> len(result0.(*HdlrBox).Name) + ite(result0.(*HdlrBox).LacksNullTermination, 0, 1) == hdr.payloadLen() - 24 && (!result0.(*HdlrBox).LacksNullTermination ==> sr.(*bits.FixedSliceReader).slice[sr.(*bits.FixedSliceReader).pos - 1] == 0) && (forall j int :: 0 <= j && j < len(result0.(*HdlrBox).Name) ==> result0.(*HdlrBox).Name[j] == sr.(*bits.FixedSliceReader).slice[sr.(*bits.FixedSliceReader).pos - (hdr.payloadLen() - 24) + j])
+//@   ensures[C01] result1 == nil && sr.(*bits.FixedSliceReader).err == nil && hdr.payloadLen() - 24 <= 0 ==> len(result0.(*HdlrBox).Name) == 0 && result0.(*HdlrBox).LacksNullTermination
+//@ func (*HdlrBox).EncodeSW
+//@   ensures[C01] result == nil && sw.(*bits.FixedSliceWriter).accError == nil ==> ghost(sw).tr == hdlrBody(b, trHdr(old(ghost(sw).tr), uint32(b.Size()), b.Type()))
+
+// ---- mdhd; pad = the chunk of the 16-bit pre_defined field after the language (don't care: the decoder skips 2 bytes,
+// the encoder writes a 16-bit zero)
+//@ spec mdhdV1(b *MdhdBox, t uint64) uint64 = trApp(trApp(trApp(trApp(t, chU(64, b.CreationTime)), chU(64, b.ModificationTime)), chU(32, b.Timescale)), chU(64, b.Duration))
+//@ spec mdhdV0(b *MdhdBox, t uint64) uint64 = trApp(trApp(trApp(trApp(t, chU(32, uint32(b.CreationTime))), chU(32, uint32(b.ModificationTime))), chU(32, b.Timescale)), chU(32, uint32(b.Duration)))
+//@ spec mdhdBody(b *MdhdBox, t uint64, pad uint64) uint64 = trApp(trApp(ite(b.Version == 1, mdhdV1(b, trApp(t, chU(32, vf(b.Version, b.Flags)))), mdhdV0(b, trApp(t, chU(32, vf(b.Version, b.Flags))))), chU(16, b.Language)), pad)
+//@ func DecodeMdhdSR
+//@   ensures[C01] result1 == nil && sr.(*bits.FixedSliceReader).err == nil ==> ghost(sr).tr == mdhdBody(result0.(*MdhdBox), old(ghost(sr).tr), chU(0, uint64(2)))
+//@ func (*MdhdBox).EncodeSW
+//@   ensures[C01] result == nil && sw.(*bits.FixedSliceWriter).accError == nil ==> ghost(sw).tr == mdhdBody(m, trHdr(old(ghost(sw).tr), uint32(m.Size()), m.Type()), chU(16, uint16(0)))
+
+// ---- mehd
+//@ spec mehdBody(b *MehdBox, t uint64) uint64 = ite(b.Version == 0, trApp(trApp(t, chU(32, vf(b.Version, b.Flags))), chU(32, uint32(b.FragmentDuration))), trApp(trApp(t, chU(32, vf(b.Version, b.Flags))), chU(64, uint64(b.FragmentDuration))))
+//@ func DecodeMehdSR
+//@   ensures[C01] result1 == nil && sr.(*bits.FixedSliceReader).err == nil ==> ghost(sr).tr == mehdBody(result0.(*MehdBox), old(ghost(sr).tr))
+//@ func (*MehdBox).EncodeSW
+//@   ensures[C01] result == nil && sw.(*bits.FixedSliceWriter).accError == nil ==> ghost(sw).tr == mehdBody(b, trHdr(old(ghost(sw).tr), uint32(b.Size()), b.Type()))
+
+// ---- mfro
+//@ spec mfroBody(b *MfroBox, t uint64) uint64 = trApp(trApp(t, chU(32, vf(b.Version, b.Flags))), chU(32, b.ParentSize))
+//@ func DecodeMfroSR
+//@   ensures[C01] result1 == nil && sr.(*bits.FixedSliceReader).err == nil ==> ghost(sr).tr == mfroBody(result0.(*MfroBox), old(ghost(sr).tr))
+//@ func (*MfroBox).EncodeSW
+//@   ensures[C01] result == nil && sw.(*bits.FixedSliceWriter).accError == nil ==> ghost(sw).tr == mfroBody(b, trHdr(old(ghost(sw).tr), uint32(b.Size()), b.Type()))
+
+// ---- mime: same situation as hdlr: the content type is read as one raw chunk (text plus optional terminator) and written as
+// chBytes(ContentType) plus terminator chunk; the tail is related through byte contents (decoder clause 2).
+//@ spec mimeFix(b *MimeBox, t uint64) uint64 = trApp(t, chU(32, vf(b.Version, b.Flags)))
+//@ spec mimeBody(b *MimeBox, t uint64) uint64 = ite(b.LacksZeroTermination, trApp(mimeFix(b, t), chBytes(b.ContentType)), trApp(trApp(mimeFix(b, t), chBytes(b.ContentType)), chU(8, uint64(0))))
+//@ func DecodeMimeSR
+//@   ensures[C01] result1 == nil && sr.(*bits.FixedSliceReader).err == nil ==> ghost(sr).tr == trApp(mimeFix(result0.(*MimeBox), old(ghost(sr).tr)), chBytes(sr.(*bits.FixedSliceReader).slice[sr.(*bits.FixedSliceReader).pos - (hdr.payloadLen() - 4) : sr.(*bits.FixedSliceReader).pos]))
+//@   ensures[C01] result1 == nil && sr.(*bits.FixedSliceReader).err == nil ==> len(result0.(*MimeBox).ContentType) + ite(result0.(*MimeBox).LacksZeroTermination, 0, 1) == hdr.payloadLen() - 4 && (!result0.(*MimeBox).LacksZeroTermination ==> sr.(*bits.FixedSliceReader).slice[sr.(*bits.FixedSliceReader).pos - 1] == 0) && (forall j int :: 0 <= j && j < len(result0.(*MimeBox).ContentType) ==> result0.(*MimeBox).ContentType[j] == sr.(*bits.FixedSliceReader).slice[sr.(*bits.FixedSliceReader).pos - (hdr.payloadLen() - 4) + j])
+//@ func (*MimeBox).EncodeSW
+//@   ensures[C01] result == nil && sw.(*bits.FixedSliceWriter).accError == nil ==> ghost(sw).tr == mimeBody(b, trHdr(old(ghost(sw).tr), uint32(b.Size()), b.Type()))
+
+// ---- mvhd; mtx = the chunk of the 36-byte matrix (the decoder skips it, the encoder writes the unity matrix).
+// The layout function follows the decoder (64-bit times iff version == 1). EncodeSW chooses the 32-bit layout iff
+// version == 0, so for version >= 2 the first encoder clause FAILS: finding (see report). The second encoder clause shows that
+// for versions 0 and 1 the encoder writes exactly the body function.
+//@ spec mvhdV1(b *MvhdBox, t uint64) uint64 = trApp(trApp(trApp(trApp(t, chU(64, b.CreationTime)), chU(64, b.ModificationTime)), chU(32, b.Timescale)), chU(64, b.Duration))
+//@ spec mvhdV0(b *MvhdBox, t uint64) uint64 = trApp(trApp(trApp(trApp(t, chU(32, uint32(b.CreationTime))), chU(32, uint32(b.ModificationTime))), chU(32, b.Timescale)), chU(32, uint32(b.Duration)))
+//@ spec mvhdBody(b *MvhdBox, t uint64, mtx uint64) uint64 = trApp(trApp(trApp(trApp(trApp(trApp(ite(b.Version == 1, mvhdV1(b, trApp(t, chU(32, vf(b.Version, b.Flags)))), mvhdV0(b, trApp(t, chU(32, vf(b.Version, b.Flags))))), chU(32, uint32(b.Rate))), chU(16, uint16(b.Volume))), chU(0, uint64(10))), mtx), chU(0, uint64(24))), chU(32, b.NextTrackID))
+//@ func DecodeMvhdSR
+//@   ensures[C01] result1 == nil && sr.(*bits.FixedSliceReader).err == nil ==> ghost(sr).tr == mvhdBody(result0.(*MvhdBox), old(ghost(sr).tr), chU(0, uint64(36)))
+//@ func (*MvhdBox).EncodeSW
+//@   ensures[C01] result == nil && sw.(*bits.FixedSliceWriter).accError == nil ==> ghost(sw).tr == mvhdBody(b, trHdr(old(ghost(sw).tr), uint32(b.Size()), b.Type()), chU(1, uint64(0)))
+//@   ensures[C01] b.Version <= 1 && result == nil && sw.(*bits.FixedSliceWriter).accError == nil ==> ghost(sw).tr == mvhdBody(b, trHdr(old(ghost(sw).tr), uint32(b.Size()), b.Type()), chU(1, uint64(0)))
+
+// ---- nmhd
+//@ spec nmhdBody(b *NmhdBox, t uint64) uint64 = trApp(t, chU(32, vf(b.Version, b.Flags)))
+//@ func DecodeNmhdSR
+//@   ensures[C01] result1 == nil && sr.(*bits.FixedSliceReader).err == nil ==> ghost(sr).tr == nmhdBody(result0.(*NmhdBox), old(ghost(sr).tr))
+//@ func (*NmhdBox).EncodeSW
+//@   ensures[C01] result == nil && sw.(*bits.FixedSliceWriter).accError == nil ==> ghost(sw).tr == nmhdBody(b, trHdr(old(ghost(sw).tr), uint32(b.Size()), b.Type()))
+
+// ---- pasp
+//@ spec paspBody(b *PaspBox, t uint64) uint64 = trApp(trApp(t, chU(32, b.HSpacing)), chU(32, b.VSpacing))
+//@ func DecodePaspSR
+//@   ensures[C01] result1 == nil && sr.(*bits.FixedSliceReader).err == nil ==> ghost(sr).tr == paspBody(result0.(*PaspBox), old(ghost(sr).tr))
+//@ func (*PaspBox).EncodeSW
+//@   ensures[C01] result == nil && sw.(*bits.FixedSliceWriter).accError == nil ==> ghost(sw).tr == paspBody(b, trHdr(old(ghost(sw).tr), uint32(b.Size()), b.Type()))
